@@ -13,7 +13,7 @@ LEVEL_NOTE = ('Trusted: the ast front-end, the interpreter, real/complex algebra
               'sample point. Numerical agreement with the radial solver output is not decided (needs integration).')
 EXPLANATION = ('R12.1 general helpers == closed form for l=2..7; R12.2 degree-2 helpers == general helpers at l=2; '
                'R12.3 callers (TidesBase wrappers, collapse_modes) interpreted with callee inlined must yield the closed-form Love number, '
-               'which decides argument order at the call sites; R12.4 ragged multi-frequency collapse; R12.5 no in-place update of arguments; R12.6 exact layered-solver solution == complex_love_general; R12.7 the value the public entry point reports under love_number_by_orderl.')
+               'which decides argument order at the call sites; R12.4 ragged multi-frequency collapse; R12.5 no in-place update of arguments; R12.6 exact layered-solver solution == complex_love_general; R12.7 the value the public entry point reports under love_number_by_orderl; R12.9 the object-oriented path (LayeredTides on a one-layer world) uses the radius, density and gravity as they are now.')
 EXPLANATION += ' R12.8 the array twin: every interpreted call repeated with array arguments (mutable cells) returns the scalar values element for element and leaves the arguments intact.'
 
 
@@ -121,6 +121,9 @@ def run(chk):
     chk.floor('R12.5', 2)
     chk.floor('R12.4', 14)
     twin.finish(floor=6)
+    from . import c13_layered
+    c13_layered.geometry_history(chk, repo, 'R12.9')
+    chk.floor('R12.9', 4)
     chk.note_analysed('functions', 'mode_manipulation.collapse_modes')
     # R12.6 agreement with the layered solver's equations: exact homogeneous solution + surface condition + extraction == complex_love_general
     from . import legacy_solver
